@@ -211,3 +211,12 @@ Definition s_extend_merge (s : sdb) (ms es ss : list spec) (um ue us : option (o
          | [] => []
          end)
         (ovr um (s_unk_m s)) (ovr ue (s_unk_e s)) (ovr us (s_unk_s s)) true.
+
+(** filtered_context: the selected categories in the same order, each dict
+    rebuilt from its values (keyed by the names the spec objects carry) or
+    emptied when its kind is not kept; unknown-specs inherited; not frozen *)
+Definition s_filter (s : sdb) (keep excl : list cat) (which : list kind) : sdb :=
+  let cp k c := if keeps which k then dict_of_specs (dict_values (sel k c)) else dict_of_specs [] in
+  mksdb (map (fun c => mkscat (sc_name c) (cp KM c) (cp KE c) (cp KS c))
+             (filter (fun c => cat_selected keep excl (sc_name c)) (s_cats s)))
+        (s_unk_m s) (s_unk_e s) (s_unk_s s) false.
